@@ -35,16 +35,29 @@ func NewFileStorage(dir string) (Storage, error) {
 
 // Set sets the value for a specific key.
 func (f *fileStorage) Set(key string, value []byte) error {
-	file, err := f.fileForWrite(key)
+	// The value is written to a temporary file which then replaces the file of the key.
+	// The key's file is therefore never truncated or partially overwritten: it holds either
+	// the previous or the new value, also when the process is killed half-way.
+	path := f.filePathToFile(key)
+	file, err := f.fileForWrite(key + ".tmp")
 
 	if err != nil {
 		return err
 	}
 
-	defer file.Close()
-
 	_, err = file.Write(value)
-	return err
+	if err == nil {
+		err = file.Sync()
+	}
+	if cerr := file.Close(); err == nil {
+		err = cerr
+	}
+	if err != nil {
+		os.Remove(path + ".tmp")
+		return err
+	}
+
+	return os.Rename(path+".tmp", path)
 }
 
 // Get returns the value for a specific key.
@@ -101,7 +114,7 @@ func (f *fileStorage) filePathToFile(file string) string {
 }
 
 func (f *fileStorage) fileForWrite(key string) (*os.File, error) {
-	return os.OpenFile(f.filePathToFile(key), os.O_WRONLY|os.O_CREATE, 0666)
+	return os.OpenFile(f.filePathToFile(key), os.O_WRONLY|os.O_CREATE|os.O_TRUNC, 0666)
 }
 
 func (f *fileStorage) fileForRead(key string) (*os.File, error) {
